@@ -17,7 +17,9 @@ Open Scope Z_scope.
 
 (* `valid stations evs` (Proofs/SimSkel.v) unfolds to:
      every event is  EPlugin ts x  with ts = arrival x, station x registered, 0 <= arrival x < departure x,
-                 or  ERecompute ts with 0 <= ts;
+                 or  ERecompute ts with 0 <= ts,
+                 or  EOther ts prec code (a bare acnsim.Event / user-defined Event subclass with its own
+                     precedence and an event_type the simulator does not dispatch on) with 0 <= ts;
      (session id, station) pairs are pairwise distinct — two sessions may carry the same id on
      different stations;
      two sessions on one station never overlap:  departure x <= arrival y \/ departure y <= arrival x
@@ -27,6 +29,7 @@ Theorem C01_valid_unfold : forall stations evs,
   (Forall (fun e => match e with
                     | EPlugin ts x => ts = s_arrival x /\ In (s_station x) stations /\ 0 <= s_arrival x < s_departure x
                     | ERecompute ts => 0 <= ts
+                    | EOther ts _ c => 0 <= ts /\ c <> 0 /\ c <> 1 /\ c <> 2
                     | EUnplug _ _ => False
                     end) evs) /\
   NoDup (map (fun x => (sid x, s_station x)) (sessions_of evs)) /\
@@ -119,6 +122,7 @@ Section Statements.
        | EPlugin ts x => In (EPlugin ts x) evs
        | EUnplug ts x => In x (sessions_of evs) /\ ts = s_departure x
        | ERecompute ts => In (ERecompute ts) evs
+       | EOther ts p c => In (EOther ts p c) evs
        end).
 End Statements.
 
